@@ -52,8 +52,11 @@ TOOL = "rule-based-clusters"
 assert DOMS == sorted(DOMS) and PRODS == sorted(PRODS) and RULE_NAMES == sorted(RULE_NAMES) and QUAL_KEYS == sorted(QUAL_KEYS)
 
 KF_KEY_TIE = "KF-C17-unique-protocluster-key-tie"
-PENDING = {"candidates": "pending:formation"}
-MATRIX_KINDS = ("pipeline", "refine", "filter", "hmmer", "region")
+KF_JS_CATEGORIES = "KF-C17-js-product-categories"
+# stage → open finding: differences confined to that stage text are the listed defect (fix offered in fixes/)
+PENDING: Dict[str, str] = {"js_product_categories": KF_JS_CATEGORIES}
+KF_TIE_KEY = "KF-C17-formation-tie-key"
+MATRIX_KINDS = ("pipeline", "refine", "filter", "hmmer", "region", "ruleset", "formation")
 PIPELINE_STAGES = ["detect", "annotate", "rule_results_json", "module_json", "candidates", "regions", "areas_json",
                    "record_json", "genbank"]
 
@@ -208,6 +211,18 @@ class C17(Property):
         ("antismash/common/secmet/record.py", "Record.all_features"),
         ("antismash/common/serialiser.py", "record_to_json"),
         ("antismash/common/serialiser.py", "gather_record_areas"),
+        ("antismash/common/secmet/features/candidate_cluster/formation.py", "_sorted_protoclusters"),
+        ("antismash/common/secmet/features/candidate_cluster/formation.py", "create_candidates_from_protoclusters"),
+        ("antismash/common/secmet/features/candidate_cluster/formation.py", "_merge_sets"),
+        ("antismash/common/secmet/features/candidate_cluster/formation.py", "_find_hybrids"),
+        ("antismash/common/secmet/features/candidate_cluster/formation.py", "_find_interleaved"),
+        ("antismash/common/secmet/features/candidate_cluster/formation.py", "_find_neighbouring"),
+        ("antismash/common/secmet/record.py", "Record.create_candidate_clusters"),
+        ("antismash/common/secmet/record.py", "Record.create_regions"),
+        ("antismash/common/secmet/record.py", "Record.add_candidate_cluster"),
+        ("antismash/common/secmet/record.py", "Record.add_region"),
+        ("antismash/common/secmet/features/region/structures.py", "Region.__init__"),
+        ("antismash/common/secmet/features/cdscollection.py", "CDSCollection.__lt__"),
     ]
     RULE = ("in-process: sets of 0-5 names / dicts of 1-3 such sets handed to the real functions as explicit enumerations "
             "(all permutations up to 3 members, else listed order, reverse and 4 shuffles); regions of 2-6 protoclusters "
@@ -226,8 +241,6 @@ class C17(Property):
         "`EnumSet` (a set subclass overriding __iter__) stands for a real set in the in-process cases: `sorted(s)`, "
         "`list(s)` and `for x in s` see the chosen order, `set.update(s)` and `x in s` do not depend on it",
         "names (domains, products, rules, qualifier keys) enter the model as ranks in sorted tables",
-        "annotate: the list of the gene's domain names after SecMetQualifier.add_domains is read from the "
-        "implementation (list operations only)",
         "un-modelled modules (rule evaluation, protocluster / candidate / region formation, GenBank and JSON writers) are "
         "covered only by the sampled seeds and allocation histories of the child matrix",
         "filter_results: `uid` = index of the hit in the gene's list; distinct HSP objects (identity equality)",
@@ -279,8 +292,15 @@ class C17(Property):
                 p[2] = same[0][2]
             else:
                 p[2] = rng.choice(free)
-        # [start, end, product, core offset]: equal-key protoclusters differ in their cores
+        # [start, end, product, core offset]: protoclusters of one product on the same coordinates differ in their
+        # cores (D64: the core is part of the key) — except in the 5 % `tie` cases, where some share the core as well
         protos = [[p[0], p[1], p[2], i] for i, p in enumerate(protos)]
+        if tie:
+            for i, p in enumerate(protos):
+                for q in protos[:i]:
+                    if q[:3] == p[:3] and rng.random() < 0.7:
+                        p[3] = q[3]
+                        break
         groups = [list(range(len(protos)))]
         if rng.random() < 0.6:
             sub = sorted(rng.sample(range(len(protos)), rng.randrange(1, len(protos) + 1)))
@@ -344,6 +364,8 @@ class C17(Property):
             yield self.rand_best(rng)
         for _ in range(800 * mult):
             yield self.rand_write(rng)
+        for _ in range(500 * min(mult, 4)):
+            yield self.rand_areas(rng)
         if deep:
             yield from self.small_scope()
 
@@ -469,9 +491,11 @@ class C17(Property):
             region, objs = build_region(case, order, lambda: shake_heap(prng))
             index = {id(o): i for i, o in objs.items()}
             got = region.get_unique_protoclusters()
-            outs.append([[int(p.start), len(p.location), PRODS.index(p.product), index[id(p)]] for p in got])
+            outs.append([[int(p.start), len(p.location), PRODS.index(p.product), int(p.core_location.start),
+                          int(p.core_location.end), index[id(p)]] for p in got])
             members = sorted({i for grp in case["groups"] for i in grp})
-            enum = [[int(objs[i].start), len(objs[i].location), case["protos"][i][2], i] for i in members]
+            enum = [[int(objs[i].start), len(objs[i].location), case["protos"][i][2], int(objs[i].core_location.start),
+                     int(objs[i].core_location.end), i] for i in members]
             cross = bool(region.crosses_origin())
         obs = self._collect(outs)
         obs.update({"enum": enum, "cross": cross, "Lkey": length if cross else 0})
@@ -535,6 +559,135 @@ class C17(Property):
             outs.append(out)
         return self._collect(outs)
 
+    # ------------------------------------------------------------------ area formation (candidates + regions)
+    def rand_areas(self, rng: random.Random) -> Dict[str, Any]:
+        """records whose protoclusters are given directly.  Three families:
+           promoted — a chemical hybrid plus 2-3 protoclusters of different products on identical coordinates
+                      whose cores overlap the hybrid's core without lying inside it (kind promotion → `singles` set);
+           origin   — circular: an origin-spanning protocluster, an unrelated one in the middle and 2-4 before the
+                      origin reaching it (the last section is merged into the first);
+           random   — 2-6 protoclusters on a grid with ties, random shared core genes, linear or circular"""
+        family = rng.choice(["promoted", "promoted", "origin", "origin", "random"])
+        prods = list(range(5))
+        rng.shuffle(prods)
+        if family == "promoted":
+            u = rng.choice([10, 10, 20])             # grid unit
+            off = rng.choice([0, 3, 7]) * u
+            length = 130 * u + off
+            genes = [[off + 30 * u, off + 39 * u, [prods[0]]], [off + 40 * u, off + 50 * u, [prods[0], prods[1]]],
+                     [off + 70 * u, off + 80 * u, [prods[1]]]]
+            ps = [[prods[0], off + 30 * u, off + 50 * u, 20 * u], [prods[1], off + 40 * u, off + 80 * u, 20 * u]]
+            nextra = rng.choice([2, 2, 3])
+            lo, hi = off + 60 * u, off + 94 * u       # the common area of the extras, inside the hybrid's area
+            for k in range(nextra):
+                nb = rng.choice([10, 11, 12, 13]) * u - k * u
+                ps.append([prods[2 + k], lo + nb, hi - nb, nb])
+            if rng.random() < 0.4:
+                ps.append([rng.choice(prods), off + 110 * u, off + 112 * u, 3 * u])
+            if rng.random() < 0.3:
+                ps[0][3] += u                         # sometimes the hybrid is not the outermost area
+            case = {"len": length, "circ": False, "genes": genes, "ps": ps, "subs": []}
+        elif family == "origin":
+            length = 1000
+            ps = [[prods[0], rng.choice([985, 990]), rng.choice([10, 15]), rng.choice([15, 20])],
+                  [prods[1], 400, 410, 20]]
+            n = rng.choice([2, 3, 3, 4])
+            for k in range(n):
+                cs = rng.choice([870, 880, 890, 900, 910, 920])
+                nb = rng.choice([60, 65, 70, 75, 80])
+                ps.append([prods[(2 + k) % 5], cs, cs + 10, nb])
+            if rng.random() < 0.3:
+                ps.append([rng.choice(prods), 100, 110, 20])
+            subs = [[930, 975]] if rng.random() < 0.3 else []
+            order = list(range(len(ps)))
+            if rng.random() < 0.5:
+                rng.shuffle(order)
+            case = {"len": length, "circ": True, "genes": [], "ps": [ps[i] for i in order], "subs": subs}
+        else:
+            length = 1000
+            circ = rng.random() < 0.4
+            genes = [[100 * k + 20, 100 * k + 50, sorted(rng.sample(range(5), rng.choice([0, 1, 2])))] for k in range(1, 8)]
+            ps = []
+            for _ in range(rng.choice([2, 3, 4, 5, 6])):
+                if ps and rng.random() < 0.35:
+                    o = rng.choice(ps)
+                    other = [k for k in range(5) if k != o[0]]
+                    # same coordinates, another product (2 %: the same product — outside the theorems' hypothesis)
+                    ps.append([o[0] if rng.random() < 0.02 else rng.choice(other), o[1], o[2], o[3]])
+                else:
+                    cs = rng.choice([100, 200, 300, 500, 700]) + rng.choice([0, 10, 20])
+                    ps.append([rng.randrange(5), cs, cs + rng.choice([40, 100, 140]), rng.choice([20, 50, 90])])
+            case = {"len": length, "circ": circ, "genes": genes, "ps": ps, "subs": []}
+        case.update({"kind": "areas", "family": family, "pseed": rng.randrange(1 << 30)})
+        return case
+
+    def gen_formation(self, rng: random.Random) -> Dict[str, Any]:
+        case = self.rand_areas(rng)
+        case["kind"] = "formation"
+        # keep the child cases inside the theorems' scope: no two protoclusters with the same product and core
+        seen = set()
+        kept = []
+        for p in case["ps"]:
+            if (p[0], p[1], p[2]) not in seen:
+                seen.add((p[0], p[1], p[2]))
+                kept.append(p)
+        case["ps"] = kept
+        return case
+
+    REBUILDS = 5
+
+    def impl_areas(self, case: Dict[str, Any]) -> Dict[str, Any]:
+        from antismash.common.secmet.features.candidate_cluster.formation import create_candidates_from_protoclusters
+        from .c17_child import AREA_PRODUCTS, areas_texts, build_areas
+        from . import common
+        prng = random.Random(case["pseed"])
+        outs = []
+        keep = []
+        first = None
+        for _ in range(self.REBUILDS):
+            try:
+                record, protos, genes = build_areas(case, lambda: shake_heap(prng))
+            except Exception as exc:  # pylint: disable=broad-except
+                outs.append({"err": f"{err_kind(exc)}: {str(exc)[:120]}"})
+                continue
+            keep.append(record)
+            outs.append(areas_texts(record, protos))
+            if first is None:
+                first = (record, protos, genes)
+        obs = self._collect(outs)
+        obs["out"] = {k: (v if len(v) < 300 else v[:300] + "…") for k, v in obs["out"].items()}
+        if not obs["same"]:
+            a, b = outs[0], obs.pop("other")
+            key = next((k for k in a if a.get(k) != b.get(k)), "stages")
+            obs["diff_stage"] = key
+            obs["detail"] = difference_detail(key, [("rebuild-0", 0), ("rebuild-n", 0)], [a, b])
+        if first is None:
+            return obs
+        # what the Lean models are given: the protoclusters as built, the candidates / subregions as formed
+        record, protos, genes = first
+        gene_index = {id(g): i for i, g in enumerate(genes)}
+        obs["ps"] = [{"loc": common.location_json(p.location), "core": common.location_json(p.core_location),
+                      "defs": sorted(gene_index[id(c)] for c in p.definition_cdses), "product": p.product}
+                     for p in protos]
+        cands = list(record.get_candidate_clusters())
+        subs = list(record.get_subregions())
+        cand_index = {id(c): i for i, c in enumerate(cands)}
+        sub_index = {id(s): 1000 + i for i, s in enumerate(subs)}
+        obs["cands"] = [{"id": i, "loc": common.location_json(c.location)} for i, c in enumerate(cands)]
+        obs["subs"] = [{"id": 1000 + i, "loc": common.location_json(s.location)} for i, s in enumerate(subs)]
+        obs["sections"] = sorted([cand_index[id(c)] for c in r.candidate_clusters] + [sub_index[id(s)] for s in r.subregions]
+                                 for r in record.get_regions())
+        # the formation function itself (the record re-inserts its result; ties come out mirrored there)
+        try:
+            fresh, fprotos, _ = build_areas(dict(case, subs=[]), None)
+            index = {id(p): i for i, p in enumerate(fprotos)}
+            formed = create_candidates_from_protoclusters(list(fresh.get_protoclusters()),
+                                                          circular_wrap_point=case["len"] if case["circ"] else None)
+            obs["formed"] = [[str(c.kind), [index[id(p)] for p in c.protoclusters]] for c in formed]
+        except Exception as exc:  # pylint: disable=broad-except
+            obs["formed"] = {"err": err_kind(exc)}
+        return obs
+
     # ------------------------------------------------------------------ child matrix (also used by --replay)
     DEFAULT_SPECS = [("0", 0), ("1", 911), ("2", 3517), ("3", 77), ("4", 1203), ("5", 2600), ("6", 40), ("random", 1999)]
 
@@ -568,11 +721,16 @@ class C17(Property):
             return {"k": "defjson", "defs": case["defs"], "impl": obs["out"]}
         if kind == "annotate":
             return {"k": "annotate", "existing": case["existing"], "prev": case["prev"] or [], "defs": case["defs"],
-                    "domains": obs["domains_after"]}
+                    "domains": case["domains"], "impl_domains_after": obs["domains_after"]}
         if kind == "uniq":
             return {"k": "uniq", "cross": obs["cross"], "L": obs["Lkey"], "enum": obs["enum"], "impl": obs["out"]}
         if kind == "best":
             return {"k": "best", "eq": case["eq"], "hits": case["hits"]}
+        if kind == "areas":
+            if "ps" not in obs:
+                return None
+            return {"k": "areas", "wrap": case["len"] if case["circ"] else 0, "ps": obs["ps"], "cands": obs["cands"],
+                    "subs": obs["subs"]}
         if kind == "write":
             groups = [[{"start": 0, "len": 120, "source": True, "quals": [], "notes": []}] if case["source"] else [],
                       [{"start": f["start"], "len": f["end"] - f["start"], "source": False, "quals": f["quals"],
@@ -589,18 +747,27 @@ class C17(Property):
         if "err" in obs:
             return Judgement(False, False, True, None, False, (kind, "error"), f"{obs['err']}: {obs.get('msg')} {obs.get('trace', '')[-300:]}")
         same = obs["same"]
+        if kind == "areas":
+            return self.judge_areas(case, obs, drv)
         if drv is None or "err" in drv:
             return Judgement(False, same, True, None, False, (kind, "driver-error"), str(drv))
         model = drv["model"]
         corr = obs["out"] == model
+        if kind == "annotate" and drv.get("domains_after") != obs.get("domains_after"):
+            corr = False       # SecMetQualifier.add_domains: the gene's domain ids after the call
         tags = [kind]
         known = None
         in_scope = bool(drv.get("scope", True))
         spec = same and bool(drv.get("spec", True))
-        if kind == "uniq" and drv["tie"]:
-            tags.append("key-tie")
-            # outside the theorem's hypothesis: any listing in key order is as good as the model's
-            corr = corr or bool(drv["spec"])
+        if kind == "uniq" and (drv["tie"] or drv["tie_nocore"]):
+            # `tie`: two members agree on the whole key — outside the theorem's hypothesis;
+            # `tie_nocore`: same product, same coordinates, different cores — decided by the core since D64 (the
+            # model); a tree without fixes/D64 lists them in address order: the open finding until it is applied.
+            # In both classes any listing in (start, -len, product) order is accepted.
+            tags.append("key-tie" if drv["tie"] else "key-tie-without-core")
+            weak = bool(drv["spec"]) or bool(drv["spec_nocore"])
+            corr = corr or weak
+            spec = same and weak
             if not same:
                 known = KF_KEY_TIE
         if kind == "best":
@@ -612,6 +779,44 @@ class C17(Property):
         if not (corr and spec):
             detail = f"impl {obs['out']} other-enumeration {obs.get('other')} model {model} spec={drv.get('spec')} same={same}"
         return Judgement(corr, spec, in_scope, known, bool(drv.get("nontrivial")), tuple(tags), detail)
+
+    def judge_areas(self, case: Dict[str, Any], obs: Dict[str, Any], drv: Optional[Dict[str, Any]]) -> Judgement:
+        same = obs["same"]
+        tags = ["areas", "areas:" + case.get("family", "?")]
+        detail = "" if same else obs.get("detail", "rebuilds differ")
+        if drv is None or "ps" not in obs:
+            tags.append("areas:build-error")
+            return Judgement(True, same, True, None, False, tuple(tags), detail)
+        if "err" in drv and "cands" not in drv:
+            return Judgement(False, same, True, None, False, tuple(tags + ["driver-error"]), str(drv))
+        corr = True
+        # the model's own enumerator variants must agree (theorem formation_singles_enumeration_invariant_partial)
+        if drv["scope"] and drv["cands"] != drv["cands_rev"]:
+            return Judgement(False, False, True, None, False, tuple(tags + ["model-not-invariant"]), str(drv)[:400])
+        if drv["cands_unsorted_differ"]:
+            tags.append("areas:promoted-singles-order-matters")
+        if drv["sections"] is not None and drv["sections"] != drv["sections_rev"]:
+            tags.append("areas:origin-merge-order-matters")
+        formed = obs.get("formed")
+        if isinstance(formed, list) and drv["cands"] is not None:
+            model = [[k, m] for k, m in drv["cands"]]
+            if formed != model:
+                corr = False
+                detail += f" formation: impl {formed} model {model}"
+        elif isinstance(formed, list) != (drv["cands"] is not None):
+            tags.append("areas:error-mismatch")      # C05's business (error kinds); not an order question
+        if drv["sections"] is not None:
+            if sorted(drv["sections"]) != obs["sections"]:
+                corr = False
+                detail += f" regions: impl {obs['sections']} model {sorted(drv['sections'])}"
+        known = None
+        if not drv["scope"]:
+            # two protoclusters with the same product and core: outside the hypothesis (TieInj) of the order theorems
+            tags.append("areas:tie-key")
+            corr = True
+            if not same:
+                known = KF_TIE_KEY
+        return Judgement(corr, same, bool(drv["scope"]), known, True, tuple(tags), detail.strip())
 
     # ------------------------------------------------------------------ shrinking (in-process kinds)
     def shrink(self, case: Dict[str, Any]) -> Iterator[Dict[str, Any]]:
@@ -660,6 +865,14 @@ class C17(Property):
                     yield dict(case, hits=hits)
             if len(case["eq"]) > 1:
                 yield dict(case, eq=case["eq"][:1])
+        elif kind == "areas":
+            for i in range(len(case["ps"])):
+                if len(case["ps"]) > 1:
+                    yield dict(case, ps=case["ps"][:i] + case["ps"][i + 1:])
+            if case.get("subs"):
+                yield dict(case, subs=[])
+            for i in range(len(case["genes"])):
+                yield dict(case, genes=case["genes"][:i] + case["genes"][i + 1:])
         elif kind == "write":
             for i in range(len(case["feats"])):
                 if len(case["feats"]) > 1:
@@ -739,19 +952,20 @@ class C17(Property):
         case = self.rand_uniq(rng)
         case["kind"] = "region"
         # keep the child cases inside the theorem's scope: same-key ties are the in-process class
+        # (and, as long as fixes/D64 is not in the tree, same-product protoclusters on the same coordinates too)
         seen = set()
         kept = []
-        for p in case["protos"]:
+        for orig, p in enumerate(case["protos"]):
             free = [k for k in range(len(PRODS)) if (p[0], p[1], k) not in seen]
             if not free:
                 continue
             if (p[0], p[1], p[2]) in seen:
                 p[2] = free[0]
             seen.add((p[0], p[1], p[2]))
-            kept.append(p)
-        remap = {p[3]: i for i, p in enumerate(kept)}
+            kept.append((orig, p))
+        remap = {orig: i for i, (orig, _) in enumerate(kept)}
         case["groups"] = [g for g in ([remap[i] for i in grp if i in remap] for grp in case["groups"]) if g]
-        case["protos"] = [[p[0], p[1], p[2], i] for i, p in enumerate(kept)]
+        case["protos"] = [[p[0], p[1], p[2], i] for i, (_, p) in enumerate(kept)]
         return case
 
     def matrix_cases(self, rng: random.Random, tier: str, deep: bool) -> List[Dict[str, Any]]:
@@ -769,6 +983,8 @@ class C17(Property):
             cases.append(self.gen_region(rng))
         for _ in range(6 * scale):
             cases.append(self.gen_ruleset(rng))
+        for _ in range(45 * scale):
+            cases.append(self.gen_formation(rng))
         return cases
 
     RULE_POOL = ["T1PKS", "NRPS", "T3PKS", "terpene", "lanthipeptide-class-i", "lanthipeptide-class-ii", "thiopeptide",
@@ -819,6 +1035,9 @@ class C17(Property):
         elif kind == "region":
             for cand in self.shrink(dict(case, kind="uniq")):
                 yield dict(cand, kind="region")
+        elif kind == "formation":
+            for cand in self.shrink(dict(case, kind="areas")):
+                yield dict(cand, kind="formation")
 
     def child_specs(self, rng: random.Random, tier: str) -> List[Tuple[str, int]]:
         k = 48 if tier == "thorough" else 6
